@@ -101,6 +101,8 @@ impl CountComputer {
         let counts_table_arc = Arc::new(counts_table);
         // make pbar for all bases struct wide
 
+        #[cfg(kmertools_verif)]
+        ktio::verif::section_begin("count-chunk", self.threads);
         pool.scope(|scope| {
             for _ in 0..self.threads {
                 let records_arc_clone = Arc::clone(&self.records);
@@ -111,13 +113,23 @@ impl CountComputer {
                 scope.spawn(move |_| {
                     loop {
                         // when limit reached exit without further reads
+                        #[cfg(kmertools_verif)]
+                        ktio::verif::sched_point("check", -1);
                         if total_kmers_so_far_clone.load(Ordering::Relaxed)
                             > (1_000_000_000_f64 * self.memory_ceil_gb / 8.0) as u64
                         {
+                            #[cfg(kmertools_verif)]
+                            ktio::verif::worker_exit();
                             break;
                         }
+                        #[cfg(kmertools_verif)]
+                        ktio::verif::sched_point("take", -1);
                         let record = { records_arc_clone.lock().unwrap().next() };
+                        #[cfg(kmertools_verif)]
+                        ktio::verif::note("took", record.as_ref().map(|r| r.n as i64).unwrap_or(-1));
                         if let Some(record) = record {
+                            #[cfg(kmertools_verif)]
+                            ktio::verif::sched_point("count", record.n as i64);
                             pbar.inc(1);
                             total_records_clone.fetch_add(1, Ordering::Acquire);
                             for (fmer, rmer) in KmerGenerator::new(&record.seq, self.ksize) {
@@ -131,10 +143,14 @@ impl CountComputer {
                                 }
                             }
 
+                            #[cfg(kmertools_verif)]
+                            ktio::verif::sched_point("addlen", record.n as i64);
                             total_kmers_so_far_clone
                                 .fetch_add(record.seq.len() as u64, Ordering::Relaxed);
                         } else {
                             // end of iteration
+                            #[cfg(kmertools_verif)]
+                            ktio::verif::worker_exit();
                             break;
                         }
                     }
@@ -231,6 +247,12 @@ impl CountComputer {
         }
 
         pbar.finish();
+    }
+
+    /// verification access: (chunks, partitions) of the last `count()`
+    #[cfg(kmertools_verif)]
+    pub fn verif_layout(&self) -> (u64, u64) {
+        (self.chunks, self.n_parts)
     }
 
     pub fn init(&mut self) {
